@@ -44,6 +44,8 @@ func checkC08(e *Env) {
 	e.R.Explanation = "Decided (structural necessary conditions of C08; the specification's constants and field order are the oracle, frozen in the checker with citation): per version, the context string, the 8-byte file magic, the MI encoding / integrity identifier / digest-header name; the signed message of b2/b3 is, in this order on every path, 64 bytes 0x20, the context string, a 0 byte, (32 and cert-sha256 | a 0 byte when it is not set), 8-byte length and bytes of validity-url, 8-byte date, 8-byte expires, 8-byte length and bytes of the request URL, 8-byte length and bytes of the header CBOR; for b1 the same prefix followed by one canonical map with exactly the keys cert-sha256 (if set), validity-url (byte string), date, expires (integers), headers; the file layout of Write per version (magic, [2-byte URL length, URL,] 3-byte sigLength, 3-byte headerLength, signature, headers, payload); the Signature header's parameter keys are exactly the seven of the specification and cert-url must be https or data; the header CBOR uses the pseudo keys ':status' / ':method' / ':url', byte strings for names and values, status as decimal text, [request, response] for b1/b2; header-integrity is \"sha256-\" + base64(SHA-256(exactly the bytes of DumpExchangeHeaders)). " +
 		"Not decided: byte-for-byte equality with an independent implementation for all inputs (of canonical CBOR only the shortest-head ladder is re-checked here, map ordering is C11's; sorted parameters C16's); X.509/OCSP content."
 	e.R.RuleText = "E7 constant tables by CFG folding per version, compared with specification constants; emission-order rule (reachability between the write instructions in the version-specialised CFG) + must-pass for each step; store/result provenance"
+	// ERRUSE: no error of a data-fallible module call is lost on the way (shared rule, erruse.go)
+	moduleErrorsConsumed(e, erruseEntries, 10, "signedexchange.")
 	vpkg := "signedexchange/version."
 	for _, v := range sxgVersions {
 		cfg := sxgVersion(v)
